@@ -34,9 +34,9 @@ SEQ = {
     "C05": dict(mc=["lru"], families=["lru"], needs=["op:get", "drop", "we"],
                 rule="lru family: capacity 0..3 changed at run time, explicit eviction; non-trivial = values were "
                      "dropped and functions executed"),
-    "C06": dict(families=["struct", "structlru", "mixed"], needs=["new", "we", "op:set"],
+    "C06": dict(families=["struct", "structlru", "structcoll", "mixed"], needs=["new", "we", "op:set"],
                 rule="struct family; non-trivial = structs created and a write"),
-    "C07": dict(families=["churn", "reclaim", "struct", "intern"], needs=["new", "int", "op:set"],
+    "C07": dict(families=["churn", "reclaim", "struct", "structcoll", "intern"], needs=["new", "int", "op:set"],
                 rule="churn family (conditional struct creation, interned revisions=1..3 with a coarse hash so that slots "
                      "are shared, long write-heavy histories); non-trivial = structs and interned values created and writes"),
     "C08": dict(families=["intern", "churn", "reclaim"], par=["parintern"], internmc=True, needs=["int", "op:set"],
